@@ -311,6 +311,7 @@ func runC16(c *Ctx) {
 		}
 	}
 	checkE2eProvenance(c)
+	checkHopCounts(c)
 	R.Floor("R16.3:reachable-stores", nreach, 1)
 	R.Check(nreach == 1, "R16.3", "module#reachable-store-census", 0, "", "exactly one site sets Reachable", fmt.Sprintf("%d sites set Reachable; the reviewed set has one", nreach))
 }
@@ -633,4 +634,100 @@ func positiveFilter(g *ssa.Function, isRaw func(ssa.Value) bool) (S, C *ssa.Phi)
 		}
 	}
 	return S, C
+}
+
+// checkHopCounts is R16.7: the per-run hop count that enters the hop-count statistics lies within the run's length: on every path
+// through the per-run computation the value appended to the list of counts is len(run.Hops) or (index of one of its hops)+1 –
+// never a constant (a run whose hops are all unanswered would count 0 hops, outside [1, len], and collide with the minimum's
+// "unset" sentinel).
+func checkHopCounts(c *Ctx) {
+	R := c.R
+	sp := c.P.SSAPkgs["result"]
+	var f *ssa.Function
+	// by role: the function of the package that stores the Min of the hop-count statistics
+	for _, g := range c.P.ModFuncs {
+		if sp == nil || core.FuncPkg(g) != sp.Pkg {
+			continue
+		}
+		for _, b := range g.Blocks {
+			for _, in := range b.Instrs {
+				if st, ok := in.(*ssa.Store); ok {
+					if fa, ok := st.Addr.(*ssa.FieldAddr); ok && core.FieldName(fa) == "Min" && isNamed(fa.X.Type(), core.ModulePath+"/result", "HopCountStats") && g.Signature.Recv() != nil {
+						f = g
+					}
+					// or the statistics as a whole (computed by a helper)
+					if isNamed(st.Val.Type(), core.ModulePath+"/result", "HopCountStats") && g.Signature.Recv() != nil {
+						if _, isConst := st.Val.(*ssa.Const); !isConst {
+							f = g
+						}
+					}
+				}
+			}
+		}
+	}
+	if f == nil {
+		R.Fail("R16.7", "result#hop-count-stats", 0, "", "no function stores HopCountStats.Min: anchor lost")
+		return
+	}
+	fn := core.FuncName(f)
+	n := 0
+	for _, b := range f.Blocks {
+		for _, in := range b.Instrs {
+			call, ok := in.(*ssa.Call)
+			if !ok {
+				continue
+			}
+			bi, ok := call.Common().Value.(*ssa.Builtin)
+			if !ok || bi.Name() != "append" {
+				continue
+			}
+			sl, ok := call.Type().Underlying().(*types.Slice)
+			if !ok {
+				continue
+			}
+			if bt, ok := sl.Elem().Underlying().(*types.Basic); !ok || bt.Kind() != types.Int {
+				continue
+			}
+			for _, ip := range InlinedPathsTo(c.P, f, b, inlineOpts{pkg: core.FuncPkg(f), stop: hasLoop}) {
+				for _, ev := range ip.Events {
+					if ev.Kind != "append" || ev.Instr != ssa.Instruction(call) && !stores(ev.Instr, call) || len(ev.Elems) != 1 {
+						continue
+					}
+					n++
+					v := ev.Elems[0]
+					within := func(v *core.Term) bool {
+						return v.Op == "len" || v.Op != "const" && v.Has(func(x *core.Term) bool { return x.Op == "loopphi" })
+					}
+					okv := within(v)
+					// computed by a helper that scans the run's hops: every value it can return is judged
+					if !okv && v.Op == "call" {
+						if site, isCall := v.Val.(*ssa.Call); isCall {
+							if h := site.Common().StaticCallee(); h != nil && core.FuncPkg(h) == core.FuncPkg(f) && len(h.Blocks) > 0 {
+								rps, complete := core.ReturnPaths(c.P, h, 2000)
+								okv = complete && len(rps) > 0
+								for _, rp := range rps {
+									if rp.Ret.Block().Comment != "recover" && !within(rp.Results[0]) {
+										okv = false
+										v = rp.Results[0]
+									}
+								}
+							}
+						}
+					}
+					if okv {
+						R.OK("R16.7", fn+"#per-run-count", call.Pos(), fn, "per-run hop count "+v.String()+" lies within the run")
+					} else {
+						R.FailPath("R16.7", fn+"#per-run-count", call.Pos(), fn, "a per-run hop count of "+v.String()+" enters the statistics: it is neither the run's length nor the position of one of its hops, so hop-count min/avg/max can leave the run lengths (a run with no answered hop counts "+v.String()+")", ip.Desc)
+					}
+				}
+			}
+		}
+	}
+	R.Floor("R16.7:per-run-counts", n, 1)
+}
+
+// stores: in is the store that writes the result of call (an append whose result goes to an addressed variable).
+func stores(in ssa.Instruction, call *ssa.Call) bool {
+	st, ok := in.(*ssa.Store)
+	return ok && st.Val == ssa.Value(call)
 }
